@@ -89,6 +89,7 @@ def check(prog: Program, run: Run) -> None:
     run_as(run, "C02.R2", "C01.R8", lambda r: c02._siblings(prog, r))
     # the string codec is chosen from the same three description fields on both sides
     run_as(run, "C02.R5", "C01.R8", lambda r: c02._strings(prog, r))
+    run_as(run, "C02.R3", "C01.R8", lambda r: c02._emplace_alignment(prog, r))
     from . import compu
     run_as(run, "C03.R1", "C01.R9", lambda r: compu.linear_forms(prog, r, "C03.R1", "C03.R1"))
 
